@@ -5,7 +5,7 @@
 //! result is compared (==, get_hash) with an independently built ROBDD (conv::build_ref), walked
 //! for order/reduction, and a structure->table map detects "== but different".
 
-use crate::conv::{build_in_env, build_ref, check_ordered_reduced, short, tt_of_bdd};
+use crate::conv::{build_in_env, build_ref, check_ordered_reduced, labels_of, short, tt_of_bdd};
 use crate::report::{Ctx, Spec, Stats};
 use crate::tt::Tt;
 use crate::util::{self, guarded, mix, Rng};
@@ -354,6 +354,7 @@ fn text_route(st: &mut Stats, t: &Tt, n: u32) {
     for text in texts {
         text_route_one(st, t, n, &text, &ordering);
     }
+    partial_ordering_route(st, t, n, &dnf, &names);
     // the same diagram under OTHER NAMES for the same ids (identity of a symbol is its id): equal
     // diagrams, equal hashes, and one copy of every node when both live in one environment
     let renamed_text = dnf.replace('x', "other_name_");
@@ -378,6 +379,73 @@ fn text_route(st: &mut Stats, t: &Tt, n: u32) {
             }
         }
         Ok(Err(_)) | Err(_) => st.bump("renamed_route_failed(judged by the formula-text route)"),
+    }
+}
+
+/// An ordering that lists only SOME of the names, with ids of its own choosing (beyond its length,
+/// with gaps, or dense): the other names receive ids from the parser. Whatever ids it picks, they
+/// must name different variables — the function read through the names is the table — and the
+/// result must be the canonical diagram for the ids in use.
+fn partial_ordering_route(st: &mut Stats, t: &Tt, n: u32, dnf: &str, names: &[String]) {
+    let salt = t.hash64();
+    for variant in 0..3u64 {
+        let listed: Vec<usize> = (0..n as usize).filter(|i| (mix(salt, variant) >> i) & 1 == 1).collect();
+        if listed.is_empty() || listed.len() == n as usize {
+            continue;
+        }
+        let len = listed.len();
+        let ordering: Vec<NamedSymbol> = listed
+            .iter()
+            .enumerate()
+            .map(|(j, i)| NamedSymbol { name: Rc::new(names[*i].clone()), id: match variant { 0 => len + j, 1 => 3 * j + 1, _ => j } })
+            .collect();
+        st.evals += 1;
+        st.bump("route_partial-ordering");
+        let case = json!({"table": t.hex(), "route": "formula-text", "text": dnf, "ordering": ordering.iter().map(|s| format!("{}={}", s.name, s.id)).collect::<Vec<_>>()});
+        util::budget(50_000_000, 200);
+        let r = guarded(|| {
+            let pf = ParsedFormula::new(&mut BufReader::new(dnf.as_bytes()), Some(ordering.clone()))?;
+            Ok::<_, std::io::Error>(pf.eval())
+        });
+        let shown = |o: &[NamedSymbol]| o.iter().map(|s| format!("{}={}", s.name, s.id)).collect::<Vec<_>>().join(",");
+        match r {
+            Ok(Ok(d)) => {
+                let idx = |s: &NamedSymbol| names.iter().position(|x| x == s.name.as_ref()).map(|p| p as u32);
+                let got = tt_of_bdd(&d, n, &idx);
+                if got.as_ref().ok() != Some(t) {
+                    st.violate("c02.route-function", "C02:partial-ordering:wrong-function".into(), format!("`{}` under the partial ordering [{}] evaluates to {} (table {:?}), expected table {}", dnf, shown(&ordering), short(&d), got.map(|x| x.hex()), t.hex()), case);
+                    continue;
+                }
+                // the ids in use, then the canonical diagram for them
+                let labels = labels_of(&d);
+                let mut vars: Vec<(usize, u32)> = Vec::new();
+                let mut clash = false;
+                for l in &labels {
+                    let i = idx(l).unwrap();
+                    if vars.iter().any(|(id, j)| (*id == l.id) != (*j == i)) {
+                        clash = true;
+                    }
+                    if !vars.iter().any(|(_, j)| *j == i) {
+                        vars.push((l.id, i));
+                    }
+                }
+                for i in 0..n {
+                    if !vars.iter().any(|(_, j)| *j == i) {
+                        vars.push((usize::MAX - i as usize, i)); // not in the support: any unused id
+                    }
+                }
+                vars.sort();
+                let plain: BDD<usize> = BDD::from(d.as_ref().clone());
+                if clash || &plain != build_ref(t, &vars).as_ref() || check_ordered_reduced(&d).is_err() {
+                    st.violate("c02.canonical", "C02:partial-ordering:not-canonical".into(), format!("`{}` under the partial ordering [{}] evaluates to {}, which is not the canonical diagram for the ids in use", dnf, shown(&ordering), short(&d)), case);
+                } else if !t.is_const() {
+                    st.nt.insert(mix(t.hash64(), 0x7e88 + variant));
+                }
+            }
+            Ok(Err(e)) => st.violate("c02.route-function", "C02:partial-ordering:rejected".into(), format!("`{}` under the partial ordering [{}] rejected: {}", dnf, shown(&ordering), e), case),
+            Err(crate::util::Caught::Budget(_)) => st.bump("step_budget_exceeded(inconclusive case)"),
+            Err(c) => st.violate("c02.panic", format!("C02:partial-ordering:{}", c.signature()), format!("{:?}", c), case),
+        }
     }
 }
 
